@@ -256,3 +256,31 @@ def kw(call: ast.Call, name, default=None):
         if k.arg == name:
             return k.value
     return default
+
+
+def pos(node) -> int:
+    """Position of a node in the pre-order traversal of its enclosing function (or module): a structural order that, unlike
+    line numbers, survives inlining (inlined statements all carry the call site's line)."""
+    root = node
+    while getattr(root, "_parent", None) is not None and not isinstance(root, ast.FunctionDef | ast.AsyncFunctionDef | ast.Module):
+        root = root._parent
+    idx = getattr(root, "_pos_index", None)
+    if idx is None or id(node) not in idx:
+        idx = {}
+        k = 0
+        stack = [root]
+        while stack:
+            n = stack.pop()
+            idx[id(n)] = k
+            k += 1
+            stack.extend(reversed(list(ast.iter_child_nodes(n))))
+        try:
+            root._pos_index = idx
+        except Exception:
+            pass
+    return idx.get(id(node), -1)
+
+
+def end_pos(node) -> int:
+    """largest pre-order position inside `node`"""
+    return max(pos(x) for x in ast.walk(node))
